@@ -488,7 +488,7 @@ func report(o *Options, eng *Engine, results []*unitResult, obls, probes []*Obl,
 		}
 	}
 	for fn, fp := range byFn {
-		if fp.reqDead || fp.lastDead || (fp.total > 0 && fp.dead*2 > fp.total) {
+		if fp.reqDead || fp.lastDead {
 			vacuous++
 			failed = append(failed, &Obl{Name: fn + "#vacuity", Kind: "vacuity", Func: fn, Res: SolverResult{Status: "vacuous", Raw: fmt.Sprintf("precondition unsatisfiable=%v, final return unreachable=%v, %d of %d returns unreachable: the proof would be vacuous", fp.reqDead, fp.lastDead, fp.dead, fp.total)}})
 			fmt.Fprintf(os.Stderr, "VACUOUS %s\n", fn)
